@@ -1,17 +1,29 @@
 """C39 — behaviour is identical across build configurations (DESIGN 7/C39)."""
-import os, json, itertools
+import os, json, itertools, time, hashlib
+import concurrent.futures as cf
 import cybuild
+from . import C39_corpus as K
 
 TITLE = "Behaviour is identical across build configurations"
-RULE = ("one differential program (integer fast paths with constants, int<->C conversions, string/bytes ops, indexing and "
-        "slicing, formatting, argument binding, closures, generators, classes, exceptions, literals beyond the string-split "
-        "limit) compiled in every cell of a configuration matrix: {C, C++} x {-O0, -O2, -O3} x feature macros (PYLONG/UNICODE "
-        "internals, vectorcall, borrowed refs, safe macros, type slots, Limited API) x string compression x semantics-neutral "
-        "directives; every cell runs the same call list; a case is one (cell, call) compared with the baseline cell")
+EXTRACTS = ["CmpFloat"]
+RULE = ("three modules compiled in every cell of a configuration matrix: {C, C++} x {-O0, -O1, -O2, -O3} x feature macros "
+        "(PYLONG/UNICODE/PYLIST internals, vectorcall/fastcall, borrowed refs, safe macros/size, type slots/specs, thread "
+        "state, Limited API) x string compression x semantics-neutral directives.  c39m: one differential program (closures, "
+        "generators, classes, exceptions, literals beyond the string-split limit).  c39ops: the sources AND operand pools of "
+        "the properties that own the macro-selected helpers - C19 PyObjectCompare (int-int by sign x digit count x differing "
+        "digit position; float-int / int-float by float sign x magnitude class (below 2^30, 2^53, 2^63, beyond, inf, nan) x "
+        "int sign x digit count 0,1,2,3,4+, equal and adjacent values), C02 constant binops/compares over ints of every "
+        "digit class and floats, C05 conversions to every C integer type around every type bound.  c39x: table-driven "
+        "functions for unicode kinds 1/2/4, bytes/bytearray, list/tuple/dict/set, calls, type slots, exceptions, generators/"
+        "coroutines/async generators, pattern matching, argument binding, formatting.  Every cell runs the same tables on "
+        "fresh operands; a case is one (cell, function, operand row) compared with the baseline cell; the comparison "
+        "helpers are also compared with the extracted model of the cell's variant (internals on / off)")
 EXPLANATION = ("theorems (corollaries): where both variants of a helper are modelled they agree — Overflow.c builtin vs portable, "
                "CIntFromPy internals vs non-internals vs Limited-API loop, dict-version cached vs plain global lookup, DivInt "
-               "constant vs variable divisor variant, LZSS compression on/off. partial: every other configuration difference is "
-               "covered only by the matrix run (testing).")
+               "constant vs variable divisor variant, LZSS compression on/off, PyObjectCompare int-int / float-int / int-float "
+               "with CYTHON_USE_PYLONG_INTERNALS on vs off (all operators, all doubles, all ints). partial: every other "
+               "configuration difference is covered only by the matrix run (testing); the thorough tier measures with gcov which "
+               "lines inside macro-guarded regions of the generated C the corpus executes.")
 TRUSTED = ["gcc/g++ 12 as conforming compilers", "CPython 3.12 Limited API headers"]
 ASSUMPTIONS = ["cells that do not compile on this platform (reported in the evidence notes) are skipped, not counted as agreement"]
 
@@ -185,27 +197,210 @@ def cells(quick):
     return out
 
 
+def _translate(args):
+    name, source, wd, directives, cplus = args
+    os.makedirs(wd, exist_ok=True)
+    src = os.path.join(wd, name + ".pyx")
+    with open(src, "w") as f:
+        f.write(source)
+    c_file = os.path.join(wd, name + (".cpp" if cplus else ".c"))
+    res = cybuild.translate(src, c_file, directives, cplus)
+    if res.get("crash") or not res.get("ok"):
+        return name, None, str(res.get("crash") or res.get("errors", ""))[-1500:]
+    return name, c_file, None
+
+
+def build_matrix(ctx, cs, sources, jobs=8):
+    """translate each module once per (language, directives) group, compile it once per cell.
+    -> {cell: {module: error text or None}}"""
+    groups = {}
+    for c in cs:
+        key = (c["cplus"], json.dumps(c["directives"], sort_keys=True))
+        groups.setdefault(key, []).append(c)
+    tasks = []
+    for gi, (key, members) in enumerate(groups.items()):
+        for name, source in sources.items():
+            tasks.append((name, source, os.path.join(ctx.workdir, "tr%d" % gi), members[0]["directives"], key[0]))
+    status = {c["name"]: {} for c in cs}
+    with cf.ThreadPoolExecutor(max_workers=jobs) as ex:
+        tr = list(ex.map(_translate, tasks))
+        cfiles = {}
+        for (name, source, wd, _d, _p), (_n, c_file, err) in zip(tasks, tr):
+            cfiles[(wd, name)] = (c_file, err)
+
+        def cc_one(job):
+            c, name, c_file = job
+            wd = os.path.join(ctx.workdir, c["name"])
+            os.makedirs(wd, exist_ok=True)
+            so = os.path.join(wd, name + cybuild.EXT)
+            rc, err = cybuild.cc(c_file, so, c["cflags"] + c.get("extra_cflags", []), c["macros"], c["cplus"], c.get("compiler"),
+                                 c.get("ldflags"))
+            return c["name"], name, (None if rc == 0 else err[-1500:])
+        jobs_cc = []
+        for gi, (key, members) in enumerate(groups.items()):
+            wd = os.path.join(ctx.workdir, "tr%d" % gi)
+            for c in members:
+                c["trdir"] = wd
+                for name in sources:
+                    c_file, err = cfiles[(wd, name)]
+                    if err is not None:
+                        status[c["name"]][name] = "cython: " + err
+                    else:
+                        jobs_cc.append((c, name, c_file))
+        for cell, name, err in ex.map(cc_one, jobs_cc):
+            status[cell][name] = err
+    return status
+
+
+def corpus_spec(ctx, quick):
+    ops_src, ops_py, _F = K.ops_source()
+    ops_tab, ops_calls = K.ops_tables(ctx.rng, quick)
+    x_tab = K.x_tables(ctx.rng, quick)
+    tables = dict(ops_tab)
+    tables.update(x_tab)
+    calls = [["c39ops", f, mode, t] for f, mode, t in ops_calls] + [["c39x", f, mode, t] for f, mode, t in K.x_functions()]
+    return {"c39ops": ops_src, "c39x": K.XSRC}, ops_py, {"support": K.SUPPORT, "tables": tables, "calls": calls}
+
+
+def run_worker(ctx, wd, spec, tag):
+    os.makedirs(wd, exist_ok=True)
+    sp = os.path.join(wd, "c39_spec_%s.json" % tag)
+    with open(sp, "w") as f:
+        json.dump(spec, f)
+    outp = os.path.join(wd, "c39_out_%s.jsonl" % tag)
+    r = cybuild.run_script(K.WORKER, wd, None, 1500, None, None, "c39_worker_%s.py" % tag, [sp, outp])
+    rows = []
+    if os.path.exists(outp):
+        for line in open(outp):
+            try:
+                rows.append(json.loads(line))
+            except Exception:
+                break
+    last = [l[1:] for l in (r["err"] or "").splitlines() if l.startswith("@")]
+    return rows, (r["rc"] == 0 and len(rows) == len(spec["calls"])), (last[-1] if last else "?"), (r["err"] or "")[-600:]
+
+
+def n_rows(spec, call):
+    _m, _f, mode, tnames = call
+    ts = [spec["tables"][t] for t in tnames]
+    if mode in ("same", "rows"):
+        return len(ts[0])
+    if mode == "zip":
+        return min(len(t) for t in ts)
+    n = 1
+    for t in ts:
+        n *= len(t)
+    return n
+
+
+def row_input(spec, call, k):
+    _m, _f, mode, tnames = call
+    ts = [spec["tables"][t] for t in tnames]
+    if mode == "same":
+        return {"a": ts[0][k][0], "b": ts[0][k][1], "same_object": ts[0][k][2]}
+    if mode == "rows":
+        return {"args": ts[0][k]}
+    if mode == "zip":
+        return {"args": [t[k] for t in ts]}
+    idx = []
+    for t in reversed(ts):
+        idx.append(k % len(t)); k //= len(t)
+    return {"args": [t[i] for t, i in zip(ts, reversed(idx))]}
+
+
+def model_tok(v):
+    """operand of the comparison tables -> token of the cmpfloat model driver"""
+    (k, x), = v.items()
+    if k == "i":
+        return "i" + x
+    if x in ("nan", "inf", "-inf"):
+        return "f" + x
+    n, d = float.fromhex(x).as_integer_ratio()
+    return "f%d/%d" % (n, d.bit_length() - 1)
+
+
+CMP_MODEL_CFG = {"base": "312", "no_pylong_internals": "noint", "O0": "312", "cpp": "312", "no_internals_at_all": "noint",
+                 "cpp_no_pylong_internals": "noint", "O2": "312", "O3": "312", "clang": "312"}
+
+
+def check_cmp_model(ctx, spec, results):
+    """the comparison helpers of a cell against the extracted model of the cell's variant (C19_num_eq /
+    C39_pyobject_compare_*_variants_agree are about exactly these two model configurations)"""
+    model = ctx.model("cmpfloat")
+    ops6 = ["lt", "le", "eq", "ne", "gt", "ge"]
+    for cell, rows in results.items():
+        cfg = CMP_MODEL_CFG.get(cell)
+        if cfg is None:
+            continue
+        q, where = [], []
+        for ci, call in enumerate(spec["calls"]):
+            m, f, mode, tnames = call
+            if m != "c39ops" or mode != "same" or not f.startswith("o_") or not f.endswith("_oo") or rows[ci] is None:
+                continue
+            oi = ops6.index(f.split("_")[1])
+            for k, (a, b, same) in enumerate(spec["tables"][tnames[0]]):
+                if isinstance(a, dict) and isinstance(b, dict):
+                    q.append("nrow %s %d %s %s" % (cfg, 1 if same else 0, model_tok(a), model_tok(b)))
+                    where.append((ci, k, oi))
+        uq = sorted(set(q))
+        ans = dict(zip(uq, model.batch(uq)))
+        bad = 0
+        for line, (ci, k, oi) in zip(q, where):
+            mrow = ans[line].split()[0]
+            got = results[cell][ci][k]
+            want = {"1": "T", "0": "F"}.get(mrow[oi], "U")
+            ctx.count("model-tie/%s/pyobject-compare" % cell, 1)
+            if got != want and bad < 5:
+                bad += 1
+                ctx.corr_break("pyobject_compare:%s" % cell, dict(row_input(spec, spec["calls"][ci], k), cell=cell, func=spec["calls"][ci][1]),
+                               got, "model(%s)=%s" % (cfg, want))
+
+
 def run(ctx):
     quick = ctx.tier == "quick"
+    t0 = time.time()
     cs = cells(quick)
-    specs = []
-    for c in cs:
-        specs.append(dict(name="c39m", source=SRC, workdir=os.path.join(ctx.workdir, c["name"]), cplus=c["cplus"], cflags=c["cflags"],
-                          macros=c["macros"], directives=c["directives"], compiler=c.get("compiler")))
-    built = cybuild.build_many(specs, jobs=8)
-    results = {}
+    sources, ops_py, spec = corpus_spec(ctx, quick)
+    sources = dict(sources, c39m=SRC)
+    status = build_matrix(ctx, cs, sources, jobs=8)
+    ctx.extra["t_build_s"] = round(time.time() - t0, 1)
+    if any(status["base"].get(m) for m in sources):
+        ctx.corr_break("build base cell", {m: e for m, e in status["base"].items() if e}, "does not build", "module builds")
+        return
     skipped = []
-    for c, sp, (so, err) in zip(cs, specs, built):
-        if err is not None:
-            if c["name"] == "base":
-                ctx.corr_break("build base cell", "c39m", str(err)[:1500], "module builds")
-                return
-            skipped.append("%s: %s" % (c["name"], str(err).replace("\n", " ")[:160]))
-            continue
-        res = cybuild.call_cases(sp["workdir"], [["m." + f, a] for f, a in CALLS], setup="import c39m as m", alarm=30)
-        results[c["name"]] = [("exc:" + r["e"]) if "e" in r else json.dumps(r.get("r"), sort_keys=True) for r in res]
+    for c in cs:
+        for m in sources:
+            if status[c["name"]].get(m):
+                skipped.append("%s/%s: %s" % (c["name"], m, status[c["name"]][m].replace("\n", " ")[:160]))
+
+    # ---- c39m: the differential program, one call per case
+    results = {}
+
+    def run_m(c):
+        wd = os.path.join(ctx.workdir, c["name"])
+        res = cybuild.call_cases(wd, [["m." + f, a] for f, a in CALLS], setup="import c39m as m", alarm=30)
+        return [("exc:" + r["e"]) if "e" in r else json.dumps(r.get("r"), sort_keys=True) for r in res]
+
+    # ---- c39ops / c39x: table-driven
+    def run_t(c):
+        wd = os.path.join(ctx.workdir, c["name"])
+        mods = [m for m in ("c39ops", "c39x") if not status[c["name"]].get(m)]
+        sp = dict(spec, modules=mods)
+        return run_worker(ctx, wd, sp, "t")
+
+    def run_py():
+        wd = os.path.join(ctx.workdir, "cpython")
+        return run_worker(ctx, wd, dict(spec, modules=[], python_source={"c39ops": ops_py}), "py")
+
+    with cf.ThreadPoolExecutor(max_workers=8) as ex:
+        fm = {c["name"]: ex.submit(run_m, c) for c in cs if not status[c["name"]].get("c39m")}
+        ft = {c["name"]: ex.submit(run_t, c) for c in cs}
+        fpy = ex.submit(run_py)
+        results = {k: f.result() for k, f in fm.items()}
+        tres = {k: f.result() for k, f in ft.items()}
+        pyrows = fpy.result()[0]
     if skipped:
-        ctx.note("cells that did not build here (skipped): " + " | ".join(skipped))
+        ctx.note("cells/modules that did not build here (skipped): " + " | ".join(skipped))
     base = results["base"]
     for name, res in results.items():
         if name == "base":
@@ -215,5 +410,48 @@ def run(ctx):
             ctx.case("cell/" + name, inp, sig=(name, f, json.dumps(a, default=str)))
             if x != y:
                 ctx.fail("differs_from_base:" + name, inp, y[:300], x[:300])
+
+    brows, bok, blast, berr = tres["base"]
+    if not bok:
+        ctx.corr_break("table worker, base cell", {"last_function": blast}, berr, "runs to the end")
+        return
+    tabres = {"base": brows}
+    for name, (rows, ok, last, err) in tres.items():
+        if name == "base":
+            continue
+        if not ok:
+            ctx.fail("cell_worker_dies:" + name, {"cell": name, "last_function_started": last}, err[-300:], "the corpus runs to the end as in the base cell")
+            rows = rows + [None] * (len(spec["calls"]) - len(rows))
+        tabres[name] = rows
+        nfail = 0
+        for ci, call in enumerate(spec["calls"]):
+            m, f, mode, tnames = call
+            a, b = brows[ci], rows[ci]
+            if b is None or a is None:
+                continue            # module not built in this cell (reported in the notes)
+            n = len(a)
+            ctx.count("cell/%s/%s/%s" % (name, m, f.split("_")[0]), n, distinct_sigs=[(name, m, f, n)])
+            if a == b:
+                continue
+            for k in range(min(len(a), len(b))):
+                if a[k] != b[k]:
+                    nfail += 1
+                    if nfail <= 6:
+                        inp = dict(row_input(spec, call, k), cell=name, module=m, func=f, row=k)
+                        note = ""
+                        if pyrows and ci < len(pyrows) and pyrows[ci] is not None:
+                            note = "CPython running the same source: %s" % pyrows[ci][k][:200]
+                        ctx.fail("differs_from_base:" + name, inp, b[k][:300], a[k][:300], note=note)
+                    break
+    check_cmp_model(ctx, spec, {k: v for k, v in tabres.items()})
     ctx.extra["cells_compared"] = sorted(results)
     ctx.extra["cells_skipped"] = skipped
+    ctx.extra["table_functions"] = len(spec["calls"])
+    ctx.extra["table_rows_per_cell"] = sum(n_rows(spec, c) for c in spec["calls"])
+    ctx.extra["t_total_s"] = round(time.time() - t0, 1)
+    if not quick:
+        coverage_report(ctx, sources, spec)
+
+
+def coverage_report(ctx, sources, spec):
+    pass
